@@ -365,7 +365,15 @@ class Interp:
         a = self.eval(e["sub"][0]); b = self.eval(e["sub"][1])
         if isinstance(a, FV) or isinstance(b, FV):
             if not (isinstance(a, FV) and isinstance(b, FV)): raise ExecError("mixed comparison")
-            if a.num is None or b.num is None: raise ExecError("comparison on a non-finite witness value")
+            if a.num is None or b.num is None:
+                # IEEE special values injected by a caller as ("special", name): ordered comparisons as the hardware does them
+                sp = {"nan": float("nan"), "inf": float("inf"), "-inf": float("-inf"), "-0": 0.0}
+                def fl(v):
+                    if v.num is not None: return v.num
+                    if isinstance(v.sym, tuple) and len(v.sym) == 2 and v.sym[0] == "special" and v.sym[1] in sp: return sp[v.sym[1]]
+                    raise ExecError("comparison on a non-finite witness value")
+                x, y = fl(a), fl(b)
+                return {"=": x == y, "notequal": x != y, "<": x < y, "<=": x <= y, ">": x > y, ">=": x >= y}[op]
             r = {"=": a.num == b.num, "notequal": a.num != b.num, "<": a.num < b.num, "<=": a.num <= b.num, ">": a.num > b.num, ">=": a.num >= b.num}[op]
             self.comparisons.append((op, a.sym, b.sym, a.num, b.num, r))
             return r
